@@ -194,6 +194,10 @@ func c13Gen(tier string, emit func(c13Case)) {
 			emit(c13Case{Kind: "methodset", Opts: o, N: ms})
 		}
 	}
+	// method lists of every length 1..12 (valid names, repeated beyond nine) with an unsupported name at every position
+	for n := 1; n <= 12; n++ {
+		emit(c13Case{Kind: "methodlist", N: n})
+	}
 	// structured patterns
 	for _, it := range c13Structured() {
 		for _, o := range []int{0, 31, 8, 23, 8 | 32, 31 | 64} {
@@ -495,6 +499,37 @@ func c13Run(c c13Case, st *fw.Stats) []fw.Viol {
 				}
 			}
 		}
+	case "methodlist":
+		all := []string{"GET", "POST", "PUT", "PATCH", "DELETE", "OPTIONS", "HEAD", "CONNECT", "TRACE"}
+		valid := make([]string, c.N)
+		for i := range valid {
+			valid[i] = all[i%len(all)]
+		}
+		st.Evals++
+		if pv := try(func() { rux.New().Add("/m", c13Noop, valid...) }); pv != nil {
+			add("method:rejected-valid", fmt.Sprintf("Add(\"/m\", h, %q) panicked although every name is a supported method: %v", valid, pv))
+		}
+		for _, bad := range []string{"BREW", "DEL", "GETS", "get?"} {
+			for pos := 0; pos <= c.N; pos++ {
+				// pos == N: every name is the unsupported one
+				list := append([]string(nil), valid...)
+				if pos == c.N {
+					for i := range list {
+						list[i] = bad
+					}
+				} else {
+					list[pos] = bad
+				}
+				for _, pat := range []string{"/m", "/a/{id}"} {
+					st.Evals++
+					st.Nontrivial++
+					var rt *rux.Route
+					if pv := try(func() { rt = rux.New().Add(pat, c13Noop, list...) }); pv == nil {
+						add("method:accepted-unknown", fmt.Sprintf("Add(%q, h, %q) (%d names): method name %q is not one of the 9 supported names but registration accepted it (route methods %q)", pat, list, len(list), bad, rt.Methods()))
+					}
+				}
+			}
+		}
 	case "pattern":
 		st.Evals++
 		var r *rux.Router
@@ -646,7 +681,7 @@ func c13Run(c c13Case, st *fw.Stats) []fw.Viol {
 var c13Spec = fw.Spec[c13Case]{
 	ID:    "C13",
 	Level: "model_checking",
-	Rule: "complete enumeration per category: (rejection) all method-name strings of <=4 letters over {G,E,T,D,L,P,U,S,H,A,space,comma} plus every prefix/suffix/case/concatenation variant of the 9 names, as single and mixed lists; handler counts 0..70 (and 27 counts up to 1000 around powers of two) through Route.Use, variadic middleware, Any(), group middleware and mixed; nil handler; options after routes; 13 accepted method sets (one name, several, Any, all but each one) on 4 route shapes x 32 option masks looked up with 22 method strings x 8 paths; structured variable regexes with a capturing group at every position (and escaped / non-capturing controls), optional parts not at the end, uncompilable regexes - each also as the prefix of a group / controller whose route has a plain path; " +
+	Rule: "complete enumeration per category: (rejection) all method-name strings of <=4 letters over {G,E,T,D,L,P,U,S,H,A,space,comma} plus every prefix/suffix/case/concatenation variant of the 9 names, as single and mixed lists; method lists of every length 1..12 with one of 4 unsupported names at every position (and at all positions); handler counts 0..70 (and 27 counts up to 1000 around powers of two) through Route.Use, variadic middleware, Any(), group middleware and mixed; nil handler; options after routes; 13 accepted method sets (one name, several, Any, all but each one) on 4 route shapes x 32 option masks looked up with 22 method strings x 8 paths; structured variable regexes with a capturing group at every position (and escaped / non-capturing controls), optional parts not at the end, uncompilable regexes - each also as the prefix of a group / controller whose route has a plain path; " +
 		"(totality) ALL pattern strings of <=5 (thorough 6) tokens over 15 tokens: every one registration accepts is matched against 156 short paths + 16 special paths x 7 method strings through Match and ServeHTTP, on a default router and with all options on; non-trivial = an invalid-by-construction definition, or an accepted dynamic raw pattern",
 	Assume: []string{"invalid definitions are built by injecting one listed fault into a valid definition; raw token strings are never classified, only checked for lookup totality"},
 	Bounds: func(tier string) map[string]any {
